@@ -171,7 +171,8 @@ func requiredFieldsSnippet(bodySchema *schema.BodySchema, placeholder int, inden
 		// We could plumb through the context here, but it saves us
 		// an argument in multiple functions above.
 		ctx := schema.WithPrefillRequiredFields(context.Background(), true)
-		snippet = attr.Constraint.EmptyCompletionData(ctx, placeholder, indentCount).Snippet
+		cData := attr.Constraint.EmptyCompletionData(ctx, placeholder, indentCount)
+		snippet = cData.Snippet
 		snippetText += fmt.Sprintf("%s%s = %s", indent, attrName, snippet)
 
 		// attrCount is used to tell if we are at the end of the list of attributes
@@ -181,7 +182,10 @@ func requiredFieldsSnippet(bodySchema *schema.BodySchema, placeholder int, inden
 		if attrCount <= reqAttr {
 			snippetText += "\n"
 		}
-		placeholder++
+		// the value's snippet may have used several tab stops, or none
+		if cData.NextPlaceholder > placeholder {
+			placeholder = cData.NextPlaceholder
+		}
 	}
 
 	// iterate over each block, skip if not required, and print snippet
